@@ -105,15 +105,37 @@ _ND = {}
 
 
 def _names_ndarray(gcls, attr):
-    """the statement covers ndarray assignment only for attributes whose setter names ndarray"""
+    """the statement covers ndarray assignment only for attributes whose setter names ndarray: the table was read off the
+    setters' sources at the pinned commit and is frozen in c15_ndarray_attrs.json (deciding it from the current source would
+    let a change to a setter switch its own check off); attributes added later are decided from their source"""
     import inspect
+    if not _ND:
+        import json as _json
+        import os as _os
+        for name in _json.load(open(_os.path.join(_os.path.dirname(__file__), "c15_ndarray_attrs.json"))):
+            _ND[tuple(name.split("."))] = True
+        _ND[("_frozen",)] = {n[0] for n in list(_ND) if len(n) == 2}
     k = (gcls.__name__, attr)
     if k not in _ND:
         try:
-            _ND[k] = "ndarray" in inspect.getsource(getattr(gcls, attr).fset)
+            known_class = gcls.__name__ in _ND[("_frozen",)]
+            _ND[k] = False if known_class and hasattr(gcls, attr) and _attr_at_pin(gcls, attr) else "ndarray" in inspect.getsource(getattr(gcls, attr).fset)
         except Exception:       # noqa: BLE001
             _ND[k] = False
     return _ND[k]
+
+
+_PINNED = None
+
+
+def _attr_at_pin(gcls, attr):
+    """was (class, attribute) among the broadcast attributes at the pinned commit (then the frozen table decides)"""
+    global _PINNED
+    if _PINNED is None:
+        import json as _json
+        import os as _os
+        _PINNED = set(_json.load(open(_os.path.join(_os.path.dirname(__file__), "c15_pinned_attrs.json"))))
+    return f"{gcls.__name__}.{attr}" in _PINNED
 
 
 def _eq(x, y):
